@@ -49,6 +49,7 @@ OpClause(def, e) ==
                            ELSE IF e.n \notin Nums(def) /\ e.name # "None" THEN "pickle_changes_name" ELSE "ok")
     [] e.op \in {"setattr_class", "delattr_class", "setattr_member", "delattr_member", "setattr_new", "setattr_value"} ->
          (IF e.res = "ok" THEN "mutation_accepted_" \o e.op ELSE "ok")
+    [] e.op \in {"setattr_special", "delattr_special"} -> (IF e.res = "ok" THEN "mutation_accepted_" \o e.op \o "_" \o e.s ELSE "ok")
     [] OTHER -> "ok"
 Clause(def, e) == LET c == OpClause(def, e) IN IF c # "ok" THEN c ELSE ObsClause(def, e.obs)
 
